@@ -16,9 +16,15 @@ open HdVerif HdVerif.SRReport HdVerif.SRReportLemmas
 
 /-! ## the result is a document-order filter -/
 
-/-- **Any report** (constructed or third-party): an accepted query returns strictly increasing positions — document
-order, no group twice — and a position is returned iff the loop body keeps that group; the query fails iff the
-arguments are refused or some group cannot be decided. -/
+/-- **Any report the model represents** (constructed or third-party): an accepted query returns strictly increasing
+positions — document order, no group twice — and a position is returned iff the loop body keeps that group; the query
+fails iff the arguments are refused or some group cannot be decided.  `keep` carries the error arms of the loop body:
+RuntimeErrors of the ROI search, a stored graphic type outside the enumeration it is read into (`.value`), a reference
+/ source image item without ReferencedSOPSequence or a SCOORD region without ContentSequence where they are read
+(`.attribute`), and the conversion of a group about to be returned (`.attribute`; see `malformed_item_arms`,
+`sound_group_has_no_malformed_arm`).  Scope: the conversion is modelled only for the ReferencedSOPSequence of IMAGE /
+COMPOSITE items; items lacking another attribute of their value type, or carrying a value / relationship type outside
+its enumeration, are outside the model (C13 / C14 own the per-item validation). -/
 theorem query_is_document_order_filter (k : Kind) (gs : List Group) (f : Filters) (l : List Nat)
     (h : query k gs f = .ok l) :
     l.Pairwise (· < ·) ∧ (∀ j, j ∈ l ↔ ∃ g, gs[j]? = some g ∧ keep k g f = .ok true) ∧
@@ -35,20 +41,21 @@ theorem query_is_document_order_filter (k : Kind) (gs : List Group) (f : Filters
     simp
 
 /-- **Soundness and completeness over construction parameters.**  For a report built from groups with parameters
-`ps` (consistent with what the constructors accept; evaluation names not reserved), an accepted query returns, in
+`ps` (consistent with what the constructors accept; graphic types members of their enumeration — the region classes
+take them as enumeration members; evaluation names not reserved), an accepted query returns, in
 document order and once each, exactly the positions of the groups whose parameters say they are of the queried
 kind and satisfy every filter (with or without template identification on each container: `specKind` is the template
 test when `p.template`, the content classification otherwise; whatever session, algorithm identification, time point context and real world value map
 the groups carry: `ContextOK`) — never a group of another kind, never one failing a filter, never omitting one. -/
 theorem query_sound_complete (k : Kind) (ps : List Params) (f : Filters)
-    (hcons : ∀ p ∈ ps, p.consistent = true) (hclean : ∀ p ∈ ps, CleanNames p) (hctx : ∀ p ∈ ps, ContextOK p)
-    (b : Bool) (hargs : argCheck k f = .ok b) :
+    (hcons : ∀ p ∈ ps, p.consistent = true) (hgv : ∀ p ∈ ps, p.graphicsValid = true) (hclean : ∀ p ∈ ps, CleanNames p)
+    (hctx : ∀ p ∈ ps, ContextOK p) (b : Bool) (hargs : argCheck k f = .ok b) :
     ∃ l, query k (ps.map mkGroup) f = .ok l ∧ l.Pairwise (· < ·) ∧
       ∀ j, j ∈ l ↔ ∃ p, ps[j]? = some p ∧ specKind k p = true ∧ specFilters k p f = true := by
   have hall : ∀ g ∈ ps.map mkGroup, ∃ b, keep k g f = .ok b := by
     intro g hg
     obtain ⟨p, hp, rfl⟩ := List.mem_map.mp hg
-    exact ⟨_, keep_constructed k p f (hcons p hp) (hclean p hp) (hctx p hp)⟩
+    exact ⟨_, keep_constructed k p f (hcons p hp) (hgv p hp) (hclean p hp) (hctx p hp)⟩
   obtain ⟨l, hl⟩ := queryLoop_ok_of_all k f (ps.map mkGroup) 0 hall
   have hq : query k (ps.map mkGroup) f = .ok l := by simp [query, hargs, hl]
   obtain ⟨h1, h2, _, _⟩ := query_is_document_order_filter k _ f l hq
@@ -64,13 +71,13 @@ theorem query_sound_complete (k : Kind) (ps : List Params) (f : Filters)
       simp only [hp, Option.map_some, Option.some.injEq] at hg
       subst hg
       have hmem : p ∈ ps := List.mem_of_getElem? hp
-      rw [keep_constructed k p f (hcons p hmem) (hclean p hmem) (hctx p hmem)] at hk
+      rw [keep_constructed k p f (hcons p hmem) (hgv p hmem) (hclean p hmem) (hctx p hmem)] at hk
       simp only [Except.ok.injEq, Bool.and_eq_true] at hk
       exact ⟨p, rfl, hk.1, hk.2⟩
   · rintro ⟨p, hp, hk1, hk2⟩
     refine ⟨mkGroup p, by rw [List.getElem?_map, hp]; rfl, ?_⟩
     have hmem : p ∈ ps := List.mem_of_getElem? hp
-    rw [keep_constructed k p f (hcons p hmem) (hclean p hmem) (hctx p hmem), hk1, hk2]
+    rw [keep_constructed k p f (hcons p hmem) (hgv p hmem) (hclean p hmem) (hctx p hmem), hk1, hk2]
     rfl
 
 /-- **No state is carried from one group to the next** in any of the three query loops: the table of variables that are
@@ -103,14 +110,64 @@ theorem filter_item_tests_are_source_tests (r : Ref) (cls inst : Option String) 
   · unfold Gen.codeItemMatches; cases (itemValue == v) <;> rfl
   · unfold Gen.uidrefItemMatches; cases (itemValue == v) <;> rfl
 
-/-- The graphic-type entry of the model (`graphicMatches`: a 2-D graphic type only ever matches a SCOORD item, a 3-D one only
-a SCOORD3D item, and then iff the stored graphic type is the one asked for) is the block of the source as it stands now, in
-both ROI queries (T16f; the stored string is read into the enumeration of the branch). -/
-theorem graphic_entry_is_source_entry (it : GItem) (gt : Bool × String) :
+/-- The graphic-type entry of the model is the block of the source as it stands now (T16f; the stored string is read into
+the enumeration of the branch).  Planar query (`graphicMatches`): a 2-D graphic type only ever matches a SCOORD item, a
+3-D one only a SCOORD3D item, and then iff the stored graphic type is the one asked for.  Volumetric query
+(`volGraphicMatches`): the entry is "SOME reference item of the branch's value type has the graphic type asked for". -/
+theorem graphic_entry_is_source_entry (it : GItem) (items : List GItem) (gt : Bool × String) :
     Gen.planarGraphicEntry gt.1 it.vt (it.graphic == gt.2) = .ok (graphicMatches it gt) ∧
-    Gen.volumetricGraphicEntry gt.1 it.vt (it.graphic == gt.2) = .ok (graphicMatches it gt) := by
-  unfold Gen.planarGraphicEntry Gen.volumetricGraphicEntry graphicMatches
-  cases gt.1 <;> by_cases h1 : it.vt = "SCOORD" <;> by_cases h2 : it.vt = "SCOORD3D" <;> simp_all
+    Gen.volumetricGraphicEntry gt.1 (items.any (fun x => x.vt == "SCOORD" && x.graphic == gt.2))
+      (items.any (fun x => x.vt == "SCOORD3D" && x.graphic == gt.2)) = .ok (volGraphicMatches items gt) := by
+  refine ⟨?_, ?_⟩
+  · unfold Gen.planarGraphicEntry graphicMatches
+    cases gt.1 <;> by_cases h1 : it.vt = "SCOORD" <;> by_cases h2 : it.vt = "SCOORD3D" <;> simp_all
+  · unfold Gen.volumetricGraphicEntry volGraphicMatches
+    cases gt.1 <;> simp
+
+/-- **The volumetric graphic-type filter does not depend on the order of the regions** of the ROI (it looked at the first
+region only: a POLYLINE + CIRCLE volume was found by POLYLINE and missed by CIRCLE, or the reverse after reordering). -/
+theorem volumetric_graphic_filter_order_independent (items items' : List GItem) (h : items.Perm items') (gt : Bool × String) :
+    volGraphicMatches items gt = volGraphicMatches items' gt := by
+  unfold volGraphicMatches
+  exact h.any_eq
+
+/-! ## malformed stored items -/
+
+/-- **The error arms for malformed stored items**, each stated for any item / group:
+(a) a SCOORD / SCOORD3D reference item whose stored graphic type is not a member of the enumeration the filter's branch
+reads it into fails a graphic-type filter with ValueError (AttributeError when the attribute is absent) — and is not looked
+at without such a filter (`graphicEntry` is only evaluated under `f.graphic = some _`);
+(b) a reference item of a type whose UIDs are compared directly, without ReferencedSOPSequence, fails a referenced-UID
+filter with AttributeError;
+(c) a SCOORD region without ContentSequence fails the search for its source images with AttributeError;
+(d) a group that matched every filter but cannot be converted is not returned: AttributeError; a group that did not
+match is skipped without conversion. -/
+theorem malformed_item_arms (it : GItem) (g : Group) (gt : Bool × String) (names : List String) (t : String) (f : Filters)
+    (cls inst : Option String) :
+    (it.vt = (if gt.1 then "SCOORD" else "SCOORD3D") →
+      (if gt.1 then Gen.srGraphicTypes2D else Gen.srGraphicTypes3D).contains it.graphic = false →
+      graphicEntry it gt = .error (if it.graphic == "" then .attribute else .value)) ∧
+    (names.contains t = true → it.ref = none → refItemUid names t it f = .error .attribute) ∧
+    (it.hasSeq = false → kidsContainImageE it cls inst = .error .attribute) ∧
+    (g.convertible = false → convertKept g (.ok true) = .error .attribute ∧ convertKept g (.ok false) = .ok false) := by
+  refine ⟨?_, ?_, ?_, ?_⟩
+  · intro hv hg
+    unfold graphicEntry graphicRead
+    simp only [hv, beq_self_eq_true, if_true, hg, Bool.false_eq_true, if_false]
+    cases (it.graphic == "") <;> rfl
+  · intro hc hr
+    simp only [refItemUid, hc, if_true, hr]
+  · intro h
+    simp [kidsContainImageE, h]
+  · intro h
+    simp [convertKept, h]
+
+/-- **A sound group never takes one of these arms**: when every SCOORD / SCOORD3D item stores a member of its
+enumeration, every SCOORD region has a ContentSequence and every IMAGE / COMPOSITE item (children of regions included)
+has a ReferencedSOPSequence, the loop body is the loop body without the arms — the only failures left are the
+RuntimeErrors of the ROI search.  Groups built by the constructors are sound (`mkGroup_sound`). -/
+theorem sound_group_has_no_malformed_arm (k : Kind) (g : Group) (f : Filters) (hs : g.sound = true) :
+    keep k g f = keepP k g f := keep_sound k g f hs
 
 /-! ## kinds -/
 
@@ -337,13 +394,15 @@ def exReport : List Params := [
     ref := .region3d "POLYGON", template := true }]
 
 example : ∀ p ∈ exReport, p.consistent = true := by decide
+example : ∀ p ∈ exReport, p.graphicsValid = true := by decide
+example : ∀ p ∈ exReport, (mkGroup p).sound = true := by decide
 /-- a time point context (TEXT, CODE and NUM with HAS OBS CONTEXT) and a real-world-value-map reference satisfy `ContextOK` -/
 example : ∀ it ∈ ([{ name := "C2348792|UMLS", vt := "TEXT", rel := "HAS OBS CONTEXT", value := "baseline" },
                     { name := "126072|DCM", vt := "CODE", rel := "HAS OBS CONTEXT", value := "TP1|99V" },
                     { name := "126073|DCM", vt := "NUM", rel := "HAS OBS CONTEXT", value := "2" },
                     { name := cRwvm, vt := "COMPOSITE", rel := "CONTAINS", ref := some ⟨"rwv", "1.9"⟩ }] : List GItem),
     (it.vt = "TEXT" ∨ ((it.vt = "CODE" ∨ it.vt = "NUM") ∧ it.rel = "HAS OBS CONTEXT") ∨ (it.vt = "COMPOSITE" ∧ it.name = cRwvm)) ∧
-    fixedNames.contains it.name = false := by decide
+    fixedNames.contains it.name = false ∧ it.sound = true := by decide
 example : ∀ p ∈ exReport, ∀ e ∈ p.evaluations, reservedCodeNames.contains e.1 = false := by decide
 example : query .planar (exReport.map mkGroup) {} = .ok [0, 2, 5] := by decide
 example : query .volumetric (exReport.map mkGroup) {} = .ok [1, 4] := by decide
@@ -357,5 +416,40 @@ example : query .volumetric (exReport.map mkGroup) { referenceType := some cImag
 example : query .planar (exReport.map mkGroup) { graphic := some (false, "POLYGON"), inst := some "7.1" } = .error .type := by decide
 example : query .planar (exReport.map mkGroup) { referenceType := some cReferencedSegment } = .error .value := by decide
 example : query .volumetric (exReport.map mkGroup) { referenceType := some cReferencedSegment, graphic := some (true, "CIRCLE") } = .error .value := by decide
+
+/-- a volumetric ROI is found by the graphic type of ANY of its regions (group 1: POLYLINE then CIRCLE) -/
+example : query .volumetric (exReport.map mkGroup) { graphic := some (true, "CIRCLE") } = .ok [1] := by decide
+example : query .volumetric (exReport.map mkGroup) { graphic := some (true, "POLYLINE") } = .ok [1] := by decide
+example : query .volumetric (exReport.map mkGroup) { graphic := some (true, "POINT") } = .ok [] := by decide
+
+/-- a report whose groups carry an observation context (session TEXT, time point CODE / NUM, real world value map) -/
+def exContext : List Params := [
+  { kind := .planar, trackingUid := "2.1", trackingId := "a", findingCategory := none, findingType := some "F1|99V", method := none,
+    sites := [], measurements := [("M1|99V", "1")], evaluations := [], purpose := none, ref := .region2d "POINT" (exCT "7.1"),
+    template := false,
+    ctxA := [{ name := "C67447|NCIt", vt := "TEXT", rel := "HAS OBS CONTEXT", value := "session 1" }],
+    ctxB := [{ name := "126072|DCM", vt := "CODE", rel := "HAS OBS CONTEXT", value := "TP1|99V" },
+             { name := "126073|DCM", vt := "NUM", rel := "HAS OBS CONTEXT", value := "2" },
+             { name := cRwvm, vt := "COMPOSITE", rel := "CONTAINS", ref := some ⟨"rwv", "1.9"⟩ }] }]
+example : ∀ p ∈ exContext, p.consistent = true ∧ p.graphicsValid = true ∧ (∀ it ∈ p.ctxA ++ p.ctxB, contextItemOK it = true) := by decide
+example : query .planar (exContext.map mkGroup) { findingType := some "F1|99V", inst := some "7.1" } = .ok [0] := by decide
+example : (exContext.map mkGroup).map measurementsOf = [[("M1|99V", "1")]] := by decide
+
+/-- third-party groups with malformed items: (0) a region with a graphic type that is no member of the enumeration,
+(1) a segmentation-frame reference without ReferencedSOPSequence, (2) a region without ContentSequence -/
+def exMalformed : List Group := [
+  { templateId := some "1410", items := [{ name := cImageRegion, vt := "SCOORD", rel := "CONTAINS", graphic := "FOO", kids := [srcKid (exCT "7.1")], hasSeq := true }] },
+  { templateId := some "1410", items := [{ name := cReferencedSegmentationFrame, vt := "IMAGE", rel := "CONTAINS", ref := none },
+                                          { name := cSourceImageForSegmentation, vt := "IMAGE", rel := "CONTAINS", ref := some (exCT "7.3") }] },
+  { templateId := some "1410", items := [{ name := cImageRegion, vt := "SCOORD", rel := "CONTAINS", graphic := "POINT", kids := [], hasSeq := false }] }]
+/-- without a filter the bogus graphic type and the childless region are not looked at; the reference without
+ReferencedSOPSequence is refused by the conversion of the group to be returned -/
+example : query .planar [exMalformed[0], exMalformed[2]] {} = .ok [0, 1] := by decide
+example : query .planar exMalformed {} = .error .attribute := by decide
+example : query .planar exMalformed { graphic := some (true, "POINT") } = .error .value := by decide
+example : query .planar [exMalformed[1], exMalformed[2]] { graphic := some (true, "POINT") } = .ok [1] := by decide
+example : query .planar [exMalformed[1]] { inst := some "7.3" } = .error .attribute := by decide
+example : query .planar [exMalformed[2]] { inst := some "7.3" } = .error .attribute := by decide
+example : exMalformed.map Group.sound = [false, false, false] := by decide
 
 end HdVerif.C16
